@@ -6,7 +6,7 @@ package roundrobin
 //
 // Representation invariant of a RoundRobin selector: every entry of the weighted cycle is an index into the
 // member list, the member list is small enough for the weight computation, and the map exists.
-//@ pred rrInv(r) = r != nil && r.mapValues != nil && len(r.endpoints) <= 16777216 && (forall j {r.staticWeightRouterCache[j]} :: (0 <= j && j < len(r.staticWeightRouterCache)) ==> (0 <= r.staticWeightRouterCache[j] && r.staticWeightRouterCache[j] < len(r.endpoints)))
+//@ pred rrInv(r) = r != nil && r.mapValues != nil && len(r.endpoints) <= 16777216 && len(r.staticWeightRouterCache) <= 1694498817 && (forall j {r.staticWeightRouterCache[j]} :: (0 <= j && j < len(r.staticWeightRouterCache)) ==> (0 <= r.staticWeightRouterCache[j] && r.staticWeightRouterCache[j] < len(r.endpoints)))
 //
 //@ func New
 //@   allocates
